@@ -52,9 +52,12 @@ def _arg(case, name):
         return case["_override"][name]
     g = _given(case)[name]
     mag = float(physq.frac(g["mag"]))
-    if g["unit"] == "none":
-        return mag
-    return mag * physq.UNITS[g["unit"]]
+    if case["in"]["mode"]["name"] in ("uarray", "qarray"):  # every argument as a two-element array
+        import numpy as np
+        mag = np.array([mag, mag])
+    val = mag if g["unit"] == "none" else mag * physq.UNITS[g["unit"]]
+    case.setdefault("_made", []).append(val)  # kept to observe that the call leaves its inputs unchanged
+    return val
 
 
 def _opt(case, **names):
@@ -117,13 +120,12 @@ def _build(case):
         return lambda: sulfuric_acid_density(w, units=units, **kw)
     if fn == "density_from_concentration":
         from chempy.properties.sulfuric_acid_density_myhre_1998 import density_from_concentration
-        M = _arg(case, "M")
         c = i["conc"]
         cval = physq.bigdec(c["bdq"]["num"]) / physq.bigdec(c["bdq"]["den"]) * physq.frac(c["mul"])
         conc = float(cval) if c["unit"] == "none" else float(cval) * physq.UNITS[c["unit"]]
-        kw = _opt(case, T="T", atol="atol")
+        kw = _opt(case, T="T", atol="atol", molar_mass="M", T0="Tz")  # T0 travels through **kwargs to rho_cb
         kw.update(wkw)
-        return lambda: density_from_concentration(conc, molar_mass=M, units=units, maxiter=60, **kw)
+        return lambda: density_from_concentration(conc, units=units, maxiter=60, **kw)
     if fn == "lg_solubility_ratio":
         from collections import OrderedDict
         from chempy.properties.gas_sol_electrolytes_schumpe_1993 import lg_solubility_ratio
@@ -140,7 +142,13 @@ def _build(case):
             if fn != "henry_H":
                 raise core.MachineryFailure("via=function only for henry_H")
             return lambda: Henry_H_at_T(T, H0, Td, units=units, **dict(kw, **bkw))
+        if via in ("reuse", "unitskw"):
+            kw["ref"] = "verif"  # the free-text reference field of the record
         obj = Henry(H0, Td, **kw) if units is None else HenryWithUnits(H0, Td, **kw)
+        if via == "unitskw" and units is not None:
+            bkw = dict(bkw, units=units)  # the units object passed explicitly instead of HenryWithUnits' default
+        if via == "reuse":  # the instance has answered for another temperature before
+            physq.observe(lambda: obj(T * 1.05), WARN_WORDS)
         if fn == "henry_H":
             if via == "alias":
                 return lambda: obj.get_kH_at_T(T, **bkw)
@@ -152,7 +160,7 @@ def _build(case):
             c1 = _arg(case, "c1")
             return lambda: obj.get_P_at_T_and_c(T, c1, **bkw)
         P = _arg(case, "P")
-        return lambda: obj.get_P_at_T_and_c(T, obj.get_c_at_T_and_P(T, P))
+        return lambda: obj.get_P_at_T_and_c(T, obj.get_c_at_T_and_P(T, P, **bkw), **bkw)
     if fn == "nernst":
         from chempy.electrochemistry.nernst import nernst_potential
         T, c1, c2 = _arg(case, "T"), _arg(case, "c1"), _arg(case, "c2")
@@ -182,9 +190,13 @@ def _dimdict(pairs):
 
 def observe_case(case):
     """call the real function; structural projection of the outcome"""
-    o = physq.observe(_build(case), WARN_WORDS)
+    thunk = _build(case)
+    before = physq.snapshot(case.get("_made", []))
+    o = physq.observe(thunk, WARN_WORDS)
+    after = physq.snapshot(case.get("_made", []))
+    case.pop("_made", None)
     out = dict(raised=o["raised"], exc=o["exc"], warned=o["warned"], messages=o["messages"][:2], value=None,
-               dims=None, has_unit=False)
+               dims=None, has_unit=False, inputs_unchanged=(before == after))
     if o["raised"]:
         return out
     v = o["value"]
@@ -217,11 +229,22 @@ def judge(case, obs):
         return "raised"
     v = obs.pop("_raw")
     want_dims = _dimdict(exp["dim"])
-    if mode["name"] != "unitless":
+    if mode["name"] not in ("unitless", "uarray"):
         have = _dimdict(obs["dims"]) if obs["has_unit"] else {}
         if have != want_dims:
             return "dimension"
+    if exp.get("inputs_unchanged") and not obs.get("inputs_unchanged", True):
+        return "input-mutated"
+    # array-valued call, unless every argument was left at its default (nothing handed over)
+    is_arr = mode["name"] in ("uarray", "qarray") and bool(_given(case))
     try:
+        if is_arr:  # an array-valued call: two elements, each judged
+            import numpy as np
+            if np.size(v) != 2:
+                obs["exc"] = "array-valued input gave a result of size %d" % np.size(v)
+                return "shape"
+            obs["value2"] = physq.magnitude_in(v[1], exp["unit"]) if obs["has_unit"] else float(v[1])
+            v = v[0]
         obs["value"] = physq.magnitude_in(v, exp["unit"]) if obs["has_unit"] else float(v)
     except Exception as e:
         obs["exc"] = "projection(value): %s: %s" % (type(e).__name__, e)
@@ -234,6 +257,9 @@ def judge(case, obs):
     obs["expected_value"] = want
     if want is not None and not physq.close(obs["value"], want, float(physq.frac(exp["rtol"])),
                                             float(physq.frac(exp["atol"]))):
+        return "value"
+    if want is not None and "value2" in obs and not physq.close(obs["value2"], want, float(physq.frac(exp["rtol"])),
+                                                                float(physq.frac(exp["atol"]))):
         return "value"
     if exp["warn"] == "yes" and not obs["warned"]:
         return "missing-warning"
@@ -292,7 +318,7 @@ def series_trace(item):
     unit = {"water_density": "kg/m3", "water_viscosity": "cP", "water_permittivity": "1",
             "sulfuric_acid_density": "kg/m3", "water_diffusion": "m2/s"}[fn]
 
-    def mk(tval):
+    def mk(tval, mode=mode):
         args = dict(fixed)
         args["T"] = tval
         given = {}
@@ -305,8 +331,10 @@ def series_trace(item):
     evs = []
     if not arr:
         obs = []
-        for t in ts:
-            o = physq.observe(_build(mk([t, 100])), WARN_WORDS)
+        for n, t in enumerate(ts):
+            # "alternate": the same relation is called with and without units in turn (history across modes)
+            md = mode if mode != "alternate" else ("units" if n % 2 == 0 else "unitless")
+            o = physq.observe(_build(mk([t, 100], md)), WARN_WORDS)
             if o["raised"]:
                 return None, dict(fn=fn, T=t, exc=o["exc"])
             try:
@@ -341,9 +369,10 @@ def series_trace(item):
             return None, dict(fn=fn, T="array", exc="result has %d elements for %d temperatures" % (len(vals), len(ts)))
         obs = [(x, False) for x in vals]
         warned_call = o["warned"]
-    for t, (val, w) in zip(ts, obs):
+    for n, (t, (val, w)) in enumerate(zip(ts, obs)):
         ok, y = physq.quantise(val, SERIES[fn])  # total: nan / inf / complex / too large -> ok=False
-        evs.append({"k": "sample", "ok": ok, "fn": fn, "mode": mode, "arr": bool(arr), "T": [t, 100],
+        md = mode if mode != "alternate" else ("units" if n % 2 == 0 else "unitless")
+        evs.append({"k": "sample", "ok": ok, "fn": fn, "mode": md, "arr": bool(arr), "T": [t, 100],
                     "P": fixed.get("P", [0, 1]), "w": fixed.get("w", [0, 1]),
                     "y": y, "qexp": SERIES[fn], "warned": w})
     evs.append({"k": "result", "n": len(ts), "arr": bool(arr), "warned": warned_call})
@@ -366,7 +395,7 @@ def run(ctx):
     if len(fns) < 13:
         raise core.MachineryFailure("vacuity: only %d relations produced cases" % len(fns))
     # every accepted (constants x units object x input form) configuration of the relations taking `constants`
-    for f, n_cfg in (("nernst", 10), ("mobility", 7)):
+    for f, n_cfg in (("nernst", 13), ("mobility", 10)):
         have = {(c["in"]["mode"]["name"], c["in"]["mode"]["consts"], c["in"]["mode"]["uobj"])
                 for c in cases if c["in"]["fn"] == f}
         if len(have) != n_cfg:
@@ -409,6 +438,11 @@ def run(ctx):
         # the same series in default units, and as ONE array-valued call (plain and with units),
         # including arrays that leave the validity range (a warning for the whole call)
         ("water_density", {}, list(range(27315, 31315 + 1, 2 * step)), "units", False),
+        ("water_density", {}, list(range(27315, 31315 + 1, 2 * step)), "alternate", False),
+        ("water_viscosity", {}, list(range(27315, 37315 + 1, 4 * step)), "alternate", False),
+        ("water_diffusion", {}, list(range(27315, 37315 + 1, 4 * step)), "alternate", False),
+        ("water_permittivity", {"P": [1, 1]}, list(range(27315, 62315 + 1, 8 * step)), "alternate", False),
+        ("sulfuric_acid_density", {"w": [1, 2]}, list(range(27315, 32315 + 1, 4 * step)), "alternate", False),
         ("water_density", {}, list(range(27315, 31315 + 1, step)), "unitless", True),
         ("water_density", {}, list(range(27315, 31315 + 1, 2 * step)) + [31400, 32000], "units", True),
         ("water_viscosity", {}, list(range(27315, 37315 + 1, 2 * step)), "units", True),
